@@ -645,7 +645,12 @@ func (m *mappedFile) lookup(name string) (v *atomic.Uint64, headOff, head uint32
 	headOff = m.hdrLen + hashOff + h*4
 	head = m.load32(headOff)
 	off := head
-	for off != 0 {
+	// A chain cannot hold more records than fit in the mapping:
+	// a longer walk means that the chain is cyclic (the file is corrupt).
+	for n := 0; off != 0; n++ {
+		if n > len(m.mapping.Data)/recordUnit {
+			return nil, 0, 0, false
+		}
 		ename, next, v, ok := m.entryAt(off)
 		if !ok {
 			return nil, 0, 0, false
@@ -763,7 +768,10 @@ func (m *mappedFile) newCounter(name string) (v *atomic.Uint64, m1 *mappedFile, 
 		// Check new elements in chain for duplicates.
 		old := head
 		head = m.load32(headOff)
-		for off := head; off != old; {
+		for n, off := 0, head; off != old; n++ {
+			if n > len(m.mapping.Data)/recordUnit {
+				return nil, nil, errCorrupt // cyclic chain
+			}
 			ename, enext, ev, ok := m.entryAt(off)
 			if !ok {
 				// The new element may lie beyond our mapping, if the
